@@ -428,21 +428,14 @@ def check_bound_key_parse(run, tree):
 
 
 def check_hilbert_table(run, tree):
-    """S5 axioms on the state diagram literal of _hilbert3d (curve generated by the checker's own automaton)."""
+    """S5 axioms on the state table used by _hilbert3d (curve generated by the checker's own automaton, bit lengths 1..4), then
+    the function itself folded over the complete domain of cells for bit lengths 1 and 2 against that automaton."""
+    from . import hilbert_folds as hf
     fi = tree.func(HIL + "::_hilbert3d")
     run.analysed(fi)
-    lit = None
-    for n in walk_no_nested(fi.node):
-        if isinstance(n, ast.Assign) and is_name(n.targets[0], "state_diagram") and isinstance(n.value, ast.Call) and \
-                isinstance(n.value.func, ast.Attribute) and n.value.func.attr == "reshape":
-            arr = n.value.func.value
-            if isinstance(arr, ast.Call) and arr.args and isinstance(arr.args[0], ast.List):
-                vals = [const_value(e) for e in arr.args[0].elts]
-                shape = tuple(const_value(e) for e in n.value.args[0].elts) if isinstance(n.value.args[0], ast.Tuple) else None
-                order = next((const_value(k.value) for k in n.value.keywords if k.arg == "order"), "C")
-                lit = (vals, shape, order, n)
-    if lit is None or None in lit[0] or lit[1] != (8, 2, 12):
-        run.unresolved(HIL + "::_hilbert3d::state-diagram", fi.where(), "state diagram literal with shape (8,2,12) not found")
+    lit = hf.find_table(tree, fi)
+    if lit is None or None in lit[0] or tuple(lit[1]) != (8, 2, 12):
+        run.unresolved(HIL + "::_hilbert3d::state-diagram", fi.where(), "state table (192 integers reshaped to (8,2,12)) not found")
         return
     vals, shape, order, node = lit
 
@@ -450,10 +443,6 @@ def check_hilbert_table(run, tree):
         if order == "F":
             return vals[d + 8 * (s + 2 * c)]
         return vals[(d * 2 + s) * 12 + c]
-    # which slot is the state (values up to 11) and which the digit (0..7)? fixed by the code's use
-    txt = {norm(s) for s in walk_no_nested(fi.node) if isinstance(s, ast.stmt)}
-    ok_roles = "nstate = state_diagram[sdigit, 0, cstate]" in txt and "hdigit = state_diagram[sdigit, 1, cstate]" in txt and "cstate = nstate" in txt
-    run.ob(HIL + "::_hilbert3d::slot-roles", ok_roles, fi.where(), "slot 0 -> next state, slot 1 -> output digit: %s" % ok_roles, "key digits taken from the state table")
     perm_ok = all(sorted(T(d, 1, c) for d in range(8)) == list(range(8)) for c in range(12))
     state_ok = all(0 <= T(d, 0, c) <= 11 for d in range(8) for c in range(12))
     run.ob(HIL + "::_hilbert3d::digit-permutation", perm_ok, fi.where(node), "for every state the output digits are a permutation of 0..7: %s" % perm_ok,
@@ -470,35 +459,17 @@ def check_hilbert_table(run, tree):
     run.ob(HIL + "::_hilbert3d::all-states-reachable", len(reach) == 12, fi.where(node), "%d of 12 states reachable from state 0" % len(reach), "", nontrivial=False)
     if not (perm_ok and state_ok):
         return
-    # the curve on the 2^L grid: bijection, unit steps, starts at the origin, ends at (2^L-1, 0, 0)
     for Lv in (1, 2, 3, 4):
         n = 2 ** Lv
         key_of = {}
         for x in range(n):
             for y in range(n):
                 for z in range(n):
-                    c = 0
-                    key = 0
-                    for i in range(Lv - 1, -1, -1):
-                        sd = ((x >> i) & 1) * 4 + ((y >> i) & 1) * 2 + ((z >> i) & 1)
-                        key = key * 8 + T(sd, 1, c)
-                        c = T(sd, 0, c)
-                    key_of[key] = (x, y, z)
+                    key_of[hf.automaton_key(T, x, y, z, Lv)] = (x, y, z)
         bij = len(key_of) == n ** 3 and set(key_of) == set(range(n ** 3))
         cont = bij and all(sum(abs(a - b) for a, b in zip(key_of[k], key_of[k + 1])) == 1 for k in range(n ** 3 - 1))
         ends = bij and key_of[0] == (0, 0, 0) and key_of[n ** 3 - 1] == (n - 1, 0, 0)
         run.ob("%s::_hilbert3d::curve[L=%d]" % (HIL, Lv), bij and cont and ends, fi.where(node),
                "2^%d grid: bijection=%s, unit steps=%s, ends at the RAMSES corners=%s" % (Lv, bij, cont, ends),
                "cells receive a key outside their CPU's key interval: the file that holds them is not selected")
-    # bit roles: x <-> 3i+2, y <-> 3i+1, z <-> 3i on write and read; most significant digit first
-    roles_w = all(x in txt for x in ("i_bit_mask[3 * i + 2] = x_bit_mask[i]", "i_bit_mask[3 * i + 1] = y_bit_mask[i]", "i_bit_mask[3 * i] = z_bit_mask[i]"))
-    fsrc = norm(fi.node)
-    roles_r = "if i_bit_mask[3 * i + 2]:\n            b2 = 1" in fsrc and "if i_bit_mask[3 * i + 1]:\n            b1 = 1" in fsrc and "if i_bit_mask[3 * i]:\n            b0 = 1" in fsrc
-    sd_ok = "sdigit = b2 * 4 + b1 * 2 + b0" in txt
-    msb = any(norm(s.iter) == "range(bit_length - 1, -1, -1)" for s in walk_no_nested(fi.node) if isinstance(s, ast.For))
-    back = all(x in txt for x in ("i_bit_mask[3 * i + 2] = _btest(hdigit, 2)", "i_bit_mask[3 * i + 1] = _btest(hdigit, 1)", "i_bit_mask[3 * i] = _btest(hdigit, 0)"))
-    run.ob(HIL + "::_hilbert3d::bit-roles", roles_w and roles_r and sd_ok and msb and back, fi.where(),
-           "x<->3i+2, y<->3i+1, z<->3i on write (%s) and read (%s); digit = 4*b2+2*b1+b0 (%s); most significant first (%s); write-back (%s)" % (roles_w, roles_r, sd_ok, msb, back),
-           "x and z swapped in the key: the curve is mirrored and cells fall in other CPUs' key intervals")
-    order_ok = "order = order + b0 * 2 ** i" in txt
-    run.ob(HIL + "::_hilbert3d::key-assembly", order_ok, fi.where(), "key = sum(bit_i * 2**i): %s" % order_ok, "", nontrivial=False)
+    hf.check_hilbert3d_fold(run, tree, T)
